@@ -103,7 +103,8 @@ let do_classify b pres t =
     let ((r1, ni), nf) = sysv_pass_arg tl ni nf in
     let ((r2, _), _) = sysv_pass_arg td ni nf in
     if i > 0 then Buffer.add_string b ";";
-    show r; Buffer.add_string b "+"; show r1; Buffer.add_string b "+"; show r2) pres
+    show r; Buffer.add_string b "+"; show r1; Buffer.add_string b "+"; show r2) pres;
+  Buffer.add_string b (Printf.sprintf " align=%d" (int_of_z (sysv_layout t).sv_align))
 
 let () =
   try
